@@ -17,8 +17,9 @@ func (m *FixPeriodPlanner) Process(ctx *shared.PlannerContext,
 	in chan []shared.LogEntry) (chan []shared.LogEntry, error) {
 	_from := ctx.From.UnixNano()
 	_to := ctx.To.UnixNano()
-	// one float64 per step and series is allocated below, in a goroutine nothing can recover (Sub saturates, it does not wrap)
-	if ctx.Step <= 0 || ctx.To.Before(ctx.From) || ctx.To.Sub(ctx.From)/ctx.Step > 11000 {
+	// one float64 per step and series is allocated below, in a goroutine nothing can recover (Sub saturates, it does not wrap;
+	// _to-_from does: a window of more than 292 years is negative there)
+	if ctx.Step <= 0 || ctx.To.Before(ctx.From) || _to-_from < 0 || ctx.To.Sub(ctx.From)/ctx.Step > 11000 {
 		return nil, &shared.NotSupportedError{Msg: "exceeded maximum resolution of 11,000 points per timeseries. " +
 			"Try increasing the value of the step parameter"}
 	}
